@@ -9,9 +9,14 @@ One `step` = one critical section of the code (what `s.mutex` / `commitStateRWMu
 What is kept of the files (record granularity, not bytes; byte layout is C01/C09/C17's business):
 
 * `log`/`logEnd`  – the tx log and `precommittedTxLogSize`.  Every write is
-  `SetOffset(precommittedTxLogSize)` followed by `Append`, i.e. `log.take logEnd ++ [rec]`;
+  `SetOffset(precommittedTxLogSize)` followed by `Append`, i.e. `writeRec log logEnd rec`: the
+  bytes are overwritten IN PLACE and nothing is truncated, so the records physically behind the
+  written one stay parseable exactly when the new record has the serialized size (`recSize`) of
+  the record it replaces; otherwise what follows is misaligned garbage.
   `logEnd` only advances when `performPrecommit` succeeds.  Discarding does NOT move `logEnd`
-  back (as in the code), so discarded records stay in the log and are found again by `Open`.
+  back (as in the code), so discarded records stay in the log and are found again by `Open`;
+  `Open` restarts `logEnd` right after the last reloaded record, so the records of a discarded
+  branch can sit behind the live tail and are overwritten one by one (seeded change c02-a).
 * `clog`/`committed` – the commit log and `committedTxID`.  Every write is
   `SetOffset(committedTxID*entrySize)` followed by appends, i.e. `clog.take committed ++ …`;
   a commit that fails half-way leaves its appended entries physically behind (`Close` flushes
@@ -24,8 +29,11 @@ What is kept of the files (record granularity, not bytes; byte layout is C01/C09
   rolled-back tail re-appears after a restart together with its STALE digests (C08 known finding
   "stale-tail-after-reset"); the store only cuts it down to the number of precommitted txs.
 
-Abstraction assumed of the appendables (C17): bytes beyond an offset that was rewound by
-`SetOffset` and then overwritten are never parsed as a record again.
+Abstraction assumed of the appendables (C17): `SetOffset` alone drops nothing that is in the file;
+a record that was partly overwritten, or that no longer starts where the previous record ends,
+is never parsed as a record again (in particular a stale record that becomes aligned again only
+after SEVERAL records of a different total layout were written over its predecessors is treated
+as lost).
 -/
 import ImmuModel.Store.History
 import ImmuModel.Merkle.HTree
@@ -99,6 +107,28 @@ inductive Out (D : Type)
   | okN (n : Nat)
   | err (e : Err)
   | panic
+
+/-- Serialized size of a tx-log record as written by `performPrecommit`: header
+(`id, ts, blTxID, blRoot, prevAlh, version` = 90 bytes; v0: `nentries:2`; v1: `mdLen:2, md,
+nentries:4`), per entry `mdLen:2, md, kLen:2, key, vLen:4, vOff:8, hVal:32`, the trailing Alh (32);
+with embedded values the record is preceded by `valuesLen:2` and the values themselves. -/
+def recSize (embedded : Bool) (r : Rec D) : Nat :=
+  let hdr := Gen.storeTxIDSize + Gen.storeTsSize + Gen.storeTxIDSize + 32 + 32 + Gen.storeSszSize
+    + (if r.hdr.version = 0 then Gen.storeSszSize
+       else Gen.storeSszSize + r.hdr.md.length + Gen.storeLszSize)
+  let ents := (r.entries.map (fun e =>
+    Gen.storeSszSize + e.md.length + Gen.storeSszSize + e.key.length + Gen.storeLszSize
+      + Gen.storeOffsetSize + 32)).sum
+  let pfx := if embedded then Gen.storeSszSize + (r.entries.map (·.vlen)).sum else 0
+  pfx + hdr + ents + 32
+
+/-- `txLog.SetOffset(pos)` followed by `txLog.Append(rec)`: the record at `pos` is overwritten in
+place; the records behind it survive iff the sizes agree (nothing is ever truncated). -/
+def writeRec (embedded : Bool) (log : List (Rec D)) (pos : Nat) (r : Rec D) : List (Rec D) :=
+  log.take pos ++ [r] ++
+    (match log[pos]? with
+     | some old => if recSize embedded old = recSize embedded r then log.drop (pos + 1) else []
+     | none => [])
 
 /-- A fresh store (`Open` on an empty directory). `H []` is `sha256.Sum256(nil)`. -/
 def init (hs : Hs D) (cfg : Cfg) (useExt : Bool) : St D :=
@@ -203,7 +233,7 @@ structure TxIn (D : Type) where
 def performPrecommit (hs : Hs D) (z : D) (s : St D) (tx : TxIn D) (ts blTxID : Nat) : St D × Out D :=
   if s.cfg.synced = true ∧ s.committed + s.cfg.maxActive ≤ s.preID then (s, .err .maxActive)
   else
-    let s := { s with log := s.log.take s.logEnd }            -- txLog.SetOffset(precommittedTxLogSize)
+    -- txLog.SetOffset(precommittedTxLogSize): moves the write position only
     let id := s.preID + 1
     match blRootFor z s blTxID with
     | .error e => (s, .err e)
@@ -217,7 +247,7 @@ def performPrecommit (hs : Hs D) (z : D) (s : St D) (tx : TxIn D) (ts blTxID : N
         match alh hs hdr with
         | none => (s, .panic)                                 -- "missing tx serialization method for version"
         | some a =>
-          let s := { s with log := s.log ++ [⟨hdr, tx.entries, a⟩] }   -- txLog.Append
+          let s := { s with log := writeRec s.cfg.embedded s.log s.logEnd ⟨hdr, tx.entries, a⟩ }   -- txLog.Append
           match ahtReset s s.preID with
           | none => (s, .err .ahtError)
           | some s =>
